@@ -43,7 +43,7 @@ mod svc;
 mod c03;
 
 thread_local! {
-    static LAST_PANIC: RefCell<Option<(String, String)>> = RefCell::new(None);
+    pub static LAST_PANIC: RefCell<Option<(String, String)>> = RefCell::new(None);
 }
 
 pub fn install_panic_hook() {
